@@ -4,7 +4,7 @@
    (identifier vs state), C12 (padding); here: once a rule is broken, a message of its family appears at the offending offset. *)
 From Coq Require Import List NArith Bool.
 From FP Require Import Model.Base Model.ItsWords Model.ItsFsm Model.Rdh Model.RdhChecks Model.Payload Model.CdpRunning Model.Scanner Model.Link Model.Collector.
-From FP Require Import Proofs.C02_proofs.
+From FP Require Import Proofs.C02_proofs Proofs.C04_stave Proofs.C02_total.
 From FP Require Gen.Facts.
 Import ListNotations.
 Open Scope N_scope.
@@ -42,18 +42,19 @@ Proof. exact c02_ihw_sanity. Qed.
 Theorem C02_tdh_rules : forall c s w p, snd (advance (cs_fsm s) w) = F_ok p -> (p = P_TDH \/ p = P_TDH_cont \/ p = P_TDH_after_done) ->
   tdh_sanity w <> [] -> has_err (pos_of s) 40 (word_msgs c s w).
 Proof. exact c02_tdh_sanity. Qed.
+(* no word crashes a validator (C04; the handled panic sites are regenerated facts), so the verdict exists *)
+Theorem C02_every_word_is_judged : forall c s w, exists s1 m, cdp_check c s w = Ok (s1, m) /\ word_msgs c s w = m.
+Proof. exact (c02_word_total (conj eq_refl (conj eq_refl eq_refl))). Qed.
 Theorem C02_tdt_rules : forall c s w, snd (advance (cs_fsm s) w) = F_ok P_TDT -> tdt_sanity w <> [] ->
-  match cdp_check c s w with Ok (_, m) => has_err (pos_of s) 50 m | Panic _ => True end.
-Proof. exact c02_tdt_sanity. Qed.
+  exists s1 m, cdp_check c s w = Ok (s1, m) /\ has_err (pos_of s) 50 m.
+Proof. exact (c02_tdt_sanity_total (conj eq_refl (conj eq_refl eq_refl))). Qed.
 Theorem C02_ddw0_rules : forall c s w, snd (advance (cs_fsm s) w) = F_ok P_DDW0 -> ddw0_sanity w <> [] -> has_err (pos_of s) 60 (word_msgs c s w).
 Proof. exact c02_ddw0_sanity. Qed.
 (* identifier faults in choice states *)
 Theorem C02_unrecognised_identifier : forall c s w a, snd (advance (cs_fsm s) w) = F_amb a ->
-  match cdp_check c s w with
-  | Ok (_, m) => has_err (pos_of s) (match a with A_TDH_or_DDW0 => 990 | A_DW_or_TDT_CDW => 991 | A_DDW0_or_TDH_IHW => 992 end) m
-  | Panic _ => True
-  end.
-Proof. exact c02_unrecognised. Qed.
+  exists s1 m, cdp_check c s w = Ok (s1, m) /\
+    has_err (pos_of s) (match a with A_TDH_or_DDW0 => 990 | A_DW_or_TDT_CDW => 991 | A_DDW0_or_TDH_IHW => 992 end) m.
+Proof. exact (c02_unrecognised_total (conj eq_refl (conj eq_refl eq_refl))). Qed.
 
 (* state-dependent rules of checks_list.md *)
 Theorem C02_ddw0_page_rules : forall c s w, snd (advance (cs_fsm s) w) = F_ok P_DDW0 -> v_running c = true ->
@@ -86,6 +87,7 @@ Print Assumptions C02_reported_in_run.
 Print Assumptions C02_padding_limit.
 Print Assumptions C02_ihw_rules.
 Print Assumptions C02_tdh_rules.
+Print Assumptions C02_every_word_is_judged.
 Print Assumptions C02_tdt_rules.
 Print Assumptions C02_ddw0_rules.
 Print Assumptions C02_unrecognised_identifier.
